@@ -205,8 +205,8 @@ def slot_form(e, tvar):
             idx = lit_value(cond["i"])
         elif cond.get("k") == "Call" and callee(cond) == "core::ops::index::Index::index" and var_of(cond["args"][0]) == tvar:
             idx = lit_value(cond["args"][1])
-        th = _tail(e["then"])
-        el = _tail(e["else"])
+        th = _tail_value(e["then"])
+        el = _tail_value(e["else"])
         if idx is not None and _is_some(th) and _is_none(el):
             return ("gated", idx, th["fields"][0]["e"])
         if idx is not None and _is_none(th) and _is_some(el):
@@ -234,6 +234,14 @@ def _tail(n):
     while isinstance(n, dict) and n.get("k") == "Block":
         if n["stmts"] or n.get("e") is None:
             return n
+        n = strip(n["e"])
+    return n
+
+
+def _tail_value(n):
+    """the value a block evaluates to, looking past its (let) statements"""
+    n = strip(n)
+    while isinstance(n, dict) and n.get("k") == "Block" and n.get("e") is not None:
         n = strip(n["e"])
     return n
 
